@@ -7,6 +7,7 @@ import (
 	"context"
 	"errors"
 	"io"
+	"log/slog"
 	"net"
 	"sync"
 	"time"
@@ -149,6 +150,7 @@ type verifUDPConnMetrics struct {
 	removed    int
 	clientAddr net.Addr
 	accessKey  string
+	onRemove   func() // optional: something else happens while the removal is being reported
 }
 
 type verifPktMetric struct {
@@ -162,11 +164,17 @@ func (m *verifUDPConnMetrics) AddPacketFromClient(status string, clientProxyByte
 func (m *verifUDPConnMetrics) AddPacketFromTarget(status string, targetProxyBytes, proxyClientBytes int64) {
 	m.fromTarget = append(m.fromTarget, verifPktMetric{status, targetProxyBytes, proxyClientBytes})
 }
-func (m *verifUDPConnMetrics) RemoveNatEntry() { m.removed++ }
+func (m *verifUDPConnMetrics) RemoveNatEntry() {
+	m.removed++
+	if m.onRemove != nil {
+		m.onRemove()
+	}
+}
 
 type verifUDPMetrics struct {
 	mu      sync.Mutex
 	entries []*verifUDPConnMetrics
+	onAdd   func(cm *verifUDPConnMetrics)
 }
 
 func (m *verifUDPMetrics) AddUDPNatEntry(clientAddr net.Addr, accessKey string) UDPConnMetrics {
@@ -174,6 +182,9 @@ func (m *verifUDPMetrics) AddUDPNatEntry(clientAddr net.Addr, accessKey string) 
 	m.mu.Lock()
 	m.entries = append(m.entries, cm)
 	m.mu.Unlock()
+	if m.onAdd != nil {
+		m.onAdd(cm)
+	}
 	return cm
 }
 
@@ -215,7 +226,8 @@ type verifStreamConn struct {
 	readsAfterEnd       int
 	writesAfterClose    int
 	readsAfterCloseRead int
-	connDeadlines       []time.Time    // SetDeadline calls (read and write side together)
+	connDeadlines       []time.Time // SetDeadline calls (read and write side together)
+	closeWriteErr       error
 	eofWithData         bool           // the last bytes of the script come together with the end-of-stream error
 	bulk                int            // after the script: this many more bytes arrive (content irrelevant)
 	onRead              func(call int) // optional hook run at the start of each Read
@@ -236,6 +248,9 @@ func (c *verifStreamConn) Read(b []byte) (int, error) {
 	c.ev("Read")
 	if c.onRead != nil {
 		c.onRead(c.readCalls)
+	}
+	if c.closed > 0 {
+		return 0, net.ErrClosed // reading from a connection this side has closed
 	}
 	if c.closedRead > 0 {
 		// the read side was shut down: the kernel reports end of stream from now on
@@ -306,9 +321,18 @@ func (c *verifStreamConn) Write(b []byte) (int, error) {
 	return len(b), nil
 }
 
-func (c *verifStreamConn) Close() error      { c.closed++; c.ev("Close"); return nil }
-func (c *verifStreamConn) CloseRead() error  { c.closedRead++; c.ev("CloseRead"); return nil }
-func (c *verifStreamConn) CloseWrite() error { c.closedWrite++; c.ev("CloseWrite"); return nil }
+func (c *verifStreamConn) Close() error     { c.closed++; c.ev("Close"); return nil }
+func (c *verifStreamConn) CloseRead() error { c.closedRead++; c.ev("CloseRead"); return nil }
+func (c *verifStreamConn) CloseWrite() error {
+	c.closedWrite++
+	c.ev("CloseWrite")
+	return c.closeWriteErr
+}
+
+// a logger with every level enabled that writes nowhere
+func verifDebugLogger() *slog.Logger {
+	return slog.New(slog.NewTextHandler(io.Discard, &slog.HandlerOptions{Level: slog.LevelDebug}))
+}
 func (c *verifStreamConn) LocalAddr() net.Addr {
 	if c.local != nil {
 		return c.local
